@@ -243,6 +243,14 @@ func c03Double(t *testing.T, run *Run, idx int, rng *rand.Rand) {
 		run.Inconclusive("commands did not complete")
 		return
 	}
+	// neither command has anything to wait for: no request is at a target when it is issued (they
+	// linger before their claim or are parked at the gate), so both return at once
+	for _, c := range []*CmdRec{first, again} {
+		if d := c.Ret - c.Issue; d > Eps {
+			fail("not-prompt:"+c.Name+":nothing-in-flight", "%s issued at %v took %v although no request was being served by a target (drain timeout 1s)", c.Name, c.Issue, d)
+			return
+		}
+	}
 	reached := 0
 	for _, name := range names {
 		for _, q := range w.Target(name).ReqLog() {
